@@ -85,6 +85,7 @@ static inline void readline_newline_reset(struct readline *rl)
     // переключатель строки истории на последнюю строку.
     sline_reset(&rl->line);
     rl->curhist = 0;
+    rl->state = READLINE_STATE_NORMAL;
 }
 
 // Указатель на строку, взятую от последней пришедшей. (1 - последняя)
